@@ -78,15 +78,26 @@ DesignatedRecv(ev) ==
 (***************************************************************************)
 (* C01 / C03 and the KF-1 class at system level                            *)
 (***************************************************************************)
-\* the single swap on pair p of a successful transaction lies inside the KF-1 input class
+\* some swap on pair p of a successful transaction lies inside the KF-1 input class.  Several swaps
+\* on one pair (cyclic routes) are replayed in order over the pair's reserves.
+RECURSIVE AnySwapInKF1(_, _, _, _, _, _)
+AnySwapInKF1(pre, p, evs, i, r0, r1) ==
+    IF i > Len(evs) THEN FALSE
+    ELSE LET e == evs[i] IN
+         IF ~(HasId(pre, p, e.offer_asset) /\ HasId(pre, p, e.ask_asset) /\ e.offer_asset # e.ask_asset) THEN FALSE
+         ELSE LET first == pre.pair[p].a0.id = e.offer_asset
+                  x == IF first THEN r0 ELSE r1
+                  y == IF first THEN r1 ELSE r0
+              IN  \/ KF1Window(x, y, e.offer_amount)
+                  \/ (NLe(e.return_amount, y) /\
+                       AnySwapInKF1(pre, p, evs, i + 1,
+                                    IF first THEN NAdd(r0, e.offer_amount) ELSE NSub(r0, e.return_amount),
+                                    IF first THEN NSub(r1, e.return_amount) ELSE NAdd(r1, e.offer_amount)))
+
 SwapClassOn(pre, ev, p) ==
-    IF TxOk(ev) /\ p \in Pairs(pre) /\ Len(SwapEvsOn(ev, p)) = 1
-    THEN LET e == SwapEvsOn(ev, p)[1] IN
-         IF HasId(pre, p, e.offer_asset) /\ HasId(pre, p, e.ask_asset) /\ e.offer_asset # e.ask_asset
-         THEN IF KF1Window(Bal(pre, InfoById(pre, p, e.offer_asset), p), Bal(pre, InfoById(pre, p, e.ask_asset), p), e.offer_amount)
-              THEN "KF-1" ELSE ""
-         ELSE ""
-    ELSE ""
+    IF TxOk(ev) /\ p \in Pairs(pre) /\ Len(SwapEvsOn(ev, p)) >= 1
+          /\ AnySwapInKF1(pre, p, SwapEvsOn(ev, p), 1, Res0(pre, p), Res1(pre, p))
+    THEN "KF-1" ELSE ""
 
 PairsSwapped(pre, ev) == {p \in Pairs(pre) : Len(SwapEvsOn(ev, p)) > 0}
 NoLiquidityOpOn(ev, p) == Len(EvsOn(ev, "provide_liquidity", p)) = 0 /\ Len(EvsOn(ev, "withdraw_liquidity", p)) = 0
